@@ -73,9 +73,32 @@ def gen_columns(rng):
     return cols
 
 
+def stress_case(rng):
+    """averaging where a numerically careless variance formula goes wrong: several histograms with identical
+    non-integer contents, or with large contents that differ only slightly"""
+    init = {"kind": "list", "edges": [0.0, 1.0, 2.5, 3.0]}
+    k = rng.choice([3, 3, 4])
+    mode = rng.choice(["same", "large"])
+    ops = []
+    for j in range(k):
+        w = rng.choice([0.1, 0.7, 0.3]) if mode == "same" else None
+        for v in (0.5, 1.5, 2.75):
+            ops.append({"op": "fill", "v": v, "w": (w if mode == "same" else float(10**8 + j + 1 + int(v)))})
+        if j < k - 1:
+            ops.append({"op": "add_hist"})
+    if rng.random() < 0.5:
+        ops.append({"op": "average"})
+    else:
+        ws = [0.2, 0.3, 0.5, 1.0][:k] if mode == "same" else [1.0] * k
+        ops.append({"op": "avg_w", "ws": ws})
+    return {"init": init, "ops": ops, "write": None}
+
+
 def gen_case(rng, maxops=10):
     """a history; arguments are valid with probability ~0.9 per operation (the abstract state - edges, number of
     histograms, whether every error entry is non-zero - is tracked here, independently of the implementation)"""
+    if rng.random() < 0.08:
+        return stress_case(rng)
     bad_init = rng.random() < 0.12
     init = H.gen_init(rng, allow_bad=bad_init)
     edges = H.edges_of(init)
